@@ -874,7 +874,7 @@ class UserActions(object):
       table = self._engine.tables[table_id]
       self._engine._update_table_model(table, table.user_table)
 
-    for table in rename_summary_tables:
+    for table in sorted(rename_summary_tables):
       groupby_col_ids = [c.colId for c in table.columns if c.summarySourceCol]
       new_table_id = summary.encode_summary_table_name(table.summarySourceTable.tableId,
                                                        groupby_col_ids)
@@ -902,7 +902,7 @@ class UserActions(object):
           # Get the views of those sections
           views = {s.parentId for s in sections if s.parentId is not None and s.parentId.id != 0}
           # Filter them by the old table name (which may be empty - than by tableId)
-          related_views = [v for v in views if v.name == (rec.title or rec.tableRef.tableId)]
+          related_views = [v for v in sorted(views) if v.name == (rec.title or rec.tableRef.tableId)]
           # Update the views immediately
           if related_views:
             self._docmodel.update(related_views, name=[values['title']] * len(related_views))
@@ -1453,8 +1453,10 @@ class UserActions(object):
     removed_col_refs = set((c.id for c in col_recs))
     re_sort_sections = []
     re_sort_specs = []
-    for section in parent_sections:
+    for section in sorted(parent_sections):
       # Only iterates once for each section. Updated sort removes all columns being deleted.
+      # (Sorted: the iteration order of a set of records differs from process to process, and
+      # the order of the rows in the emitted update must not.)
       sort = json.loads(section.sortColRefs) if section.sortColRefs else []
       updated_sort = [col_spec for col_spec in sort
                       if sort_specs.col_ref(col_spec) not in removed_col_refs]
